@@ -45,6 +45,9 @@ CHECKS = {
  "C18": ("DESIGN.md section 5 C18",
    "SMT check of the real test.Bridge and dpipe code over bounded scripted histories with the operation, its direction and its arguments as solver variables. Bridge: writes in both directions through bridgeConn.Write/Bridge.Push (1..3 symbolic bytes, the writer's slice overwritten afterwards), DropNextNWrites, ReorderNextNWrites (also repeatedly: dedicated run), Drop, Reorder, Filter; after every operation the two per-direction queues (what Tick hands to readers one message per call) are compared with a reference model: exactly the written messages minus dropped/filtered ones, in the scripted order, boundaries and bytes unchanged, no duplicate, no invented message. dpipe: Write/Read/Close on either end against per-direction FIFO queues: one message per read, cut only to the reader's slice, unmodified, in order, Close of one end does not disturb reads on the other.",
    "Bounded: 3 (thorough 4) Bridge operations, 4 (5) dpipe operations; helper preconditions assumed (Drop offset within the queue, Reorder with >= 2 queued messages, no new ReorderNextNWrites while one is collecting); the hand-over of the queued messages to blocked readers by Tick and the endpoints' deadlines are exercised by C10, not here."),
+ "C19": ("DESIGN.md section 5 C19, section 2.9",
+   "Race obligations on goroutine-mode runs of the real code: while the symbolic scheduler executes the segments (code between two scheduling points) of the goroutines that are enabled in one world, the executor logs every heap-cell access with the locks held; two accesses of different goroutines to the same cell, at least one a write, not both atomic, with no common lock, whose segments are co-enabled in the same world, form an obligation that the solver must refute (world guard, enabledness and path conditions must be unsatisfiable together). Client programs: concurrent hardware-address creation (the NewNet/NewRouter path), a packet buffer used by a reader, a writer and Close (thorough: 2 readers x 2 writers), a deadline with Set calls racing with timer callbacks. A satisfiable race is replayed under the Go race detector.",
+   "Bounded client programs (listed); vnet sockets/routers/filters, the udp listener and dpipe are not covered by race runs yet; the granularity is the engine's heap cell (object, field path) and the modelled synchronisation operations; the Go memory model below that is trusted."),
 }
 
 def main():
